@@ -28,8 +28,8 @@ def handleC13Groups : Sexp → Option Sexp
           let frag :=
             if InFragmentPy pythonPrec Generated.printPrec e then "in"
             else if InFragmentPyFlat pythonPrec Generated.printPrec e then "flat"
-            else if C13R.InFragment pythonPrec Generated.printPrec e
-                || C13R.InFragmentFlat pythonPrec Generated.printPrec e then "out-not"
+            else if Syntax.InFragment pythonPrec Generated.printPrec e
+                || Syntax.InFragmentFlat pythonPrec Generated.printPrec e then "out-not"
             else "out"
           let back := match parseTop pythonPrec 0 (toks ps) with
             | .error err => pErrToSexp err
